@@ -34,8 +34,8 @@ package output
 //@   ensures [result_shape] err == nil ==> res != nil && res.ChangeHash == target.ChangeHash
 //@   ensures [nil_on_error] err != nil ==> res == nil
 //@   ensures [success_requires_every_write] err == nil ==> (forall j int :: {tasks[j]} 0 <= j && j < len(tasks) ==> taskOK(tasks[j]))
-// C14: ... and there is one write per declared output (an output that is never handed to its handler is never found missing)
-//@   ensures [one_write_per_declared_output] err == nil ==> len(tasks) == len(outputs)
+// C14: ... and there is one write per declared output - the regular outputs and the bin_output - (an output that is never handed to its handler is never found missing)
+//@   ensures [one_write_per_declared_output] err == nil ==> len(tasks) == len(target.Outputs) + ite(target.BinOutput.Identifier != "", 1, 0)
 //@   ghostset res.complete := err == nil
 //@   ghostset target.outputsStored := err == nil
 //@ loop #1
@@ -51,7 +51,7 @@ package output
 //@   ensures [nil_on_error] err != nil ==> res == nil
 //@   ensures [hash_is_a_function_of_the_digest_bag] err == nil ==> res.OutputHash == H(joinOf(sortseq(bagOf(digests)), ","))
 //@   ensures [success_requires_every_hash] err == nil ==> (forall j int :: {tasks[j]} 0 <= j && j < len(tasks) ==> taskOK(tasks[j]))
-//@   ensures [one_hash_per_declared_output] err == nil ==> len(tasks) == len(outputs)
+//@   ensures [one_hash_per_declared_output] err == nil ==> len(tasks) == len(target.Outputs) + ite(target.BinOutput.Identifier != "", 1, 0)
 //@   ghostset nocacheHashings := nocacheHashings + 1
 //@   ghostset lastNoCacheHash := ite(err == nil, res.OutputHash, lastNoCacheHash)
 //@ loop #1
